@@ -67,6 +67,8 @@ class Ownership:
                     out.add(root)             # slice / row selection of an array is a view
             return out
         if isinstance(expr, ast.IfExp):
+            if static_false(expr.test, mi):
+                return self.roots(expr.orelse, amap, selfname, attr_alias, ci, mi, depth)
             return (self.roots(expr.body, amap, selfname, attr_alias, ci, mi, depth)
                     | self.roots(expr.orelse, amap, selfname, attr_alias, ci, mi, depth))
         if isinstance(expr, ast.BoolOp):
@@ -277,6 +279,22 @@ class Ownership:
                         for root in self.roots(call.args[i], amap, selfname, attr_alias, ci, mi, depth):
                             sinks.append((root, call.lineno,
                                           f"{ast.unparse(call)} -> {callee[2].name} mutates its parameter #{i} ({where[0][1]})"))
+
+
+NUMPY_SCALAR_TYPES = {"float64", "float32", "float16", "int64", "int32", "int16", "int8", "uint8", "bool_",
+                      "complex128", "float_", "int_"}
+
+
+def static_false(test, mi):
+    """`x.dtype is <numpy scalar type>`: a dtype *instance* is never identical to a scalar type *class*, so the
+    comparison is False for every input (with `==` it would be a real test).  The repository relies on this
+    in HamiltonianChain.__init__, where it makes the conversion arm - a copy - unconditional."""
+    if isinstance(test, ast.Compare) and len(test.ops) == 1 and isinstance(test.ops[0], ast.Is):
+        l, r = test.left, test.comparators[0]
+        if isinstance(l, ast.Attribute) and l.attr == "dtype" and isinstance(r, ast.Name):
+            q = mi.imports.get(r.id) if mi is not None else None
+            return (q or "").startswith("numpy.") and r.id in NUMPY_SCALAR_TYPES
+    return False
 
 
 SCALAR_ANN = {"float", "int", "bool", "str", "callable", "Callable"}
